@@ -378,12 +378,12 @@ def rule_ed_sets(ctx: RuleContext, p: Program, rid: str) -> None:
 def run(ctx: RuleContext, p: Program) -> None:
     m = p.module('editor')
     fns = [f for f in p.functions_in(m) if f.kind != 'overload']
-    rule_ed_newline(ctx, p, fns, 'ED-NEWLINE')
-    rule_ed_dirname(ctx, p, fns, 'ED-DIRNAME')
-    rule_ed_guard(ctx, p, fns, 'ED-GUARD')
-    rule_ed_after_yield(ctx, p, fns, 'ED-AFTER-YIELD')
-    rule_ed_once(ctx, p, 'ED-ONCE')
-    rule_ed_sets(ctx, p, 'ED-SETS')
+    ctx.try_rule(rule_ed_newline, p, fns, 'ED-NEWLINE')
+    ctx.try_rule(rule_ed_dirname, p, fns, 'ED-DIRNAME')
+    ctx.try_rule(rule_ed_guard, p, fns, 'ED-GUARD')
+    ctx.try_rule(rule_ed_after_yield, p, fns, 'ED-AFTER-YIELD')
+    ctx.try_rule(rule_ed_once, p, 'ED-ONCE')
+    ctx.try_rule(rule_ed_sets, p, 'ED-SETS')
     ctx.not_decided += ['glob matching semantics', 'filesystem races', 'what the parser/printer produce (C01)']
     ctx.assumptions += ['Python io newline semantics: newline=None translates on read and to os.linesep on write; '
                         'any other value disables translation on read; \'\' and \'\\n\' write verbatim',
